@@ -38,14 +38,20 @@ def c02P4 : Person :=
 /-- **Name round trip.**  For every person satisfying the explicit predicate `WFPerson` (what
 `Person(string)` produces — see `C02_wfperson_of_parse` — with no token ending in a backslash),
 the text `_format_name` writes and the text `__str__` gives are read back by `Person(text)` as the
-same person (same five token lists), nothing reported; and both texts coincide. -/
+same person (same five token lists), nothing reported; and both texts coincide (`personStr` is
+`__str__` after repair C02-1; it is `Person.toStr` whenever no empty First part has to be kept). -/
 theorem C02_person_roundtrip (p : Person) (h : WFPerson p = true) :
     mkPerson (formatName p) [] [] [] [] [] = .ok (p, false) ∧
     mkPerson (personStr p) [] [] [] [] [] = .ok (p, false) ∧
-    personStr p = formatName p := by
+    personStr p = formatName p ∧
+    -- `Person.toStr` of `Model/Names.lean` (the text without the trailing comma of repair C02-1)
+    (keepsEmptyFirst p = false → mkPerson p.toStr [] [] [] [] [] = .ok (p, false)) := by
   have hg := personGood_of_wf h
-  refine ⟨mkPerson_format hg, ?_, personStr_eq_format hg⟩
-  rw [personStr_eq_format hg]; exact mkPerson_format hg
+  have h2 : mkPerson (personStr p) [] [] [] [] [] = .ok (p, false) := by
+    rw [personStr_eq_format hg]; exact mkPerson_format hg
+  refine ⟨mkPerson_format hg, h2, personStr_eq_format hg, fun hk => ?_⟩
+  have : personStr p = p.toStr := by simp [personStr, hk]
+  rw [← this]; exact h2
 
 theorem C02_person_roundtrip_nonvacuous :
     WFPerson c02P1 = true ∧ formatName c02P1 = "van Beethoven, Jr, Ludwig X.".toList ∧
